@@ -181,7 +181,7 @@ def oracle(parts, outcome, obs):
 
 
 CLAIM = {
-    "text": "Theorems C07_callsign / C07_wake / C07_update (Coq, closed): for every frame holding bits 41-88 the decoder returns exactly the eight 6-bit characters of that field in order through the IA5 subset (1-26 -> A-Z, 48-57 -> 0-9, everything else omitted) and cannot panic; the wake-class letter equals the specification for ALL (type code, category) pairs over the table regenerated from icao.rs; a TC 1-4 squitter records callsign, type code and category. Tied to the code on 64 codes x 8 positions, random strings, TC x CA, BDS 2,0 via DF20/21 under every capability state, +/-U +/-R, and the W / CALLSIGN columns of the CLI.",
+    "text": "Theorems C07_callsign / C07_wake / C07_update (Coq, closed): for every frame holding bits 41-88 the decoder returns exactly the eight 6-bit characters of that field in order through the IA5 subset (1-26 -> A-Z, 48-57 -> 0-9, everything else omitted) and cannot panic; the wake-class letter equals the specification for ALL (type code, category) pairs over the table regenerated from icao.rs; a TC 1-4 squitter records callsign, type code and category. Tied to the code on 64 codes x 8 positions, random strings, TC x CA, BDS 2,0 via DF20/21 under every capability state, +/-U +/-R, and the W / CALLSIGN columns of the CLI. An identification squitter that creates the row delivers callsign and category (C07_new_row).",
     "note": "BDS 2,0 gating is C10's subject; here the oracle only checks it where the property is unambiguous.",
     "technique": "Coq proof (per-position slicing by reflection sweeps against the bit-field specification, symbolic character map); differential runs + CLI",
 }
